@@ -81,6 +81,16 @@ public:
       return String();
     }
 
+    Variant& operator=(const Variant& other)
+    {
+      Data* otherData = other.data;
+      if(otherData->ref)
+        Atomic::increment(otherData->ref);
+      clear();
+      data = otherData;
+      return *this;
+    }
+
     Variant& operator=(const String& other)
     {
       if(data->type != textType || data->ref > 1)
